@@ -77,6 +77,7 @@ func (vc *VC) specFail(c *Clause, f string, a ...any) {
 }
 
 func (vc *VC) trBool(e Expr, env *specEnv, c *Clause) string {
+	vc.lastEnv = env
 	v := vc.tr(e, env, c)
 	if !v.isBool() {
 		vc.specFail(c, "expression %s is not boolean", e)
